@@ -70,6 +70,11 @@ def generate_g(repo, outdir, schema, gen_rs, contracts_dir=None, canary=None):
     import extract as _ex
     out = Out()
     out.broadcast_stmt = 'broadcast use lib::group_lib; broadcast use glib::axiom_iter_items_vec;'
+    # a schema's vocabulary file may ask for further proved library lemmas in its bodies (`// @broadcast glib::lemma_x`): kept
+    # per schema, every extra broadcast lemma costs solver time in every body
+    import re as _re
+    for extra in _re.findall(r'^// @broadcast (\S+)', open(os.path.join(contracts_dir, 'g_%s_speclib.rs' % schema.split('__')[0])).read(), _re.M):
+        out.broadcast_stmt += ' broadcast use %s;' % extra
     out.emit(open(os.path.join(contracts_dir, 'prelude.rs')).read().rstrip('\n').replace('#![feature(pattern)]', '#![feature(pattern)]\n#![feature(allocator_api)]'))
     out.emit('verus! {')
     out.emit('')
